@@ -49,8 +49,9 @@ type world struct {
 	front  string
 	port   int
 
-	mu       sync.Mutex
-	stderrEx []stderrExpect
+	mu         sync.Mutex
+	stderrEx   []stderrExpect
+	headBroken map[int]bool
 }
 
 type stderrExpect struct {
@@ -81,7 +82,7 @@ func run(c *lib.Ctx) {
 	if v, err := strconv.Atoi(os.Getenv("C13_WORKERS")); err == nil && v > 0 {
 		workers = v // debugging aid: a single worker executes the cases in order
 	}
-	total := c.Pick(4000, 150000)
+	total := c.Pick(10000, 400000)
 	cfgs := shapes()
 	var sts []*station
 	for i := 0; i < workers; i++ {
@@ -274,13 +275,28 @@ func (w *world) runCase(k *kase, st *station) {
 	} else {
 		st.sc.arm(k.Reply.sc)
 	}
-	resp := st.conn.Do(k.Method, raw)
+	var resp *lib.Resp
 	var got []*received
 	var seen []*refSeen
-	if k.Cfg.Ref {
-		seen = st.ref.take()
-	} else {
-		got = st.sc.take()
+	for try := 0; ; try++ {
+		resp = st.conn.Do(k.Method, raw)
+		if k.Cfg.Ref {
+			seen = st.ref.take()
+		} else {
+			got = st.sc.take()
+		}
+		// a server may close an idle keep-alive connection at any time: when
+		// the exchange died before any response byte and nothing reached the
+		// responder, the request is repeated once on a fresh connection
+		if resp.Err != nil && resp.Status == 0 && len(got)+len(seen) == 0 && try == 0 && !strings.Contains(resp.Err.Error(), "malformed") {
+			c.Count("client_retries_on_fresh_connection", 1)
+			st.conn.Close()
+			if !k.Cfg.Ref {
+				st.sc.arm(k.Reply.sc)
+			}
+			continue
+		}
+		break
 	}
 	tail := s.logTail()
 	c.Eval(1)
@@ -353,6 +369,12 @@ func (w *world) headSentinel(k *kase, s *site, st *station, hit bool) {
 		return
 	}
 	st.conn.Close()
+	w.mu.Lock()
+	if w.headBroken == nil {
+		w.headBroken = map[int]bool{}
+	}
+	w.headBroken[k.N] = true // the relay was cut short by our own close: its stderr is not judged
+	w.mu.Unlock()
 	if !hit {
 		return
 	}
